@@ -62,6 +62,7 @@ type Exec struct {
 	UsedCon  map[string]bool
 	nonnil   map[string]bool
 	knownLen map[string]int
+	unfolded map[string]bool
 	depth    int
 	stack    []*ssa.Function
 	goalSeq  map[string]int
